@@ -298,9 +298,22 @@ def generate(thm, all_contracts=None):
         for t in REGISTRY:
             if t.options.get("contract_of"):
                 try:
-                    contracts[r.resolve(t.options["contract_of"])] = t
+                    contracts.setdefault(r.resolve(t.options["contract_of"]), t)   # first registered wins
                 except Exception:  # noqa
                     pass
+        # explicit choice: "qualname@TheoremName"
+        mods = []
+        for ent in thm.modular:
+            if "@" in ent:
+                fn, tn = ent.split("@", 1)
+                contracts[r.resolve(fn)] = next(t for t in REGISTRY if t.name == tn)
+                mods.append(fn)
+            else:
+                mods.append(ent)
+        if mods != list(thm.modular):
+            import copy as _copy
+            thm = _copy.copy(thm)
+            thm.modular = mods
 
     def run(ctx):
         ctx.inputs = []
